@@ -8,6 +8,7 @@ import (
 	"fmt"
 	"sort"
 	"strings"
+	"time"
 
 	"github.com/evanw/esbuild/pkg/api"
 	"github.com/evanw/esbuild/pkg/verifsim"
@@ -267,8 +268,12 @@ func scenarioC16(rc *RunCtx) *Violation {
 		pp.WriteTo(dd, false)
 		return "heal"
 	}
+	if g.n(2) == 0 {
+		cfg.InitialSleep = 5 * time.Second // the first reads then have usable modification keys
+	}
+	faultFirst := g.n(3) == 0
 	cfg.Plan = func(step int) *verifsim.FaultPlan {
-		if step%2 == 1 && g.n(2) == 0 {
+		if (step%2 == 1 && g.n(2) == 0) || (step == 0 && faultFirst) {
 			pl := mkPlan()
 			pl.Rate[verifsim.FCorrupt] = 0 // corruption is delivered as garbage on disk here (see DESIGN §4.3)
 			if pl.AtKind == verifsim.FCorrupt {
@@ -307,7 +312,7 @@ func scenarioC16(rc *RunCtx) *Violation {
 		if strings.Contains(errTexts(r.Res), "The build was canceled") {
 			rc.Probe("cancel_during_build")
 		}
-		if r.Step%2 == 1 {
+		if r.Step%2 == 1 || r.Faulted {
 			if len(r.Res.Errors) > 0 {
 				rc.Probe("faulted_build_reported_errors")
 			}
